@@ -217,7 +217,7 @@ def main():
             fam += [("enum", p) for p in en]
             cov["enumerated_family"] = "%s: %d programs, every one model-checked under all schedules and replayed" % (desc, len(en))
         if pid == "C03":
-            depths = (20, 60) if tier == "quick" else (60, 100)
+            depths = (20, 60) if tier == "quick" else (30, 45, 60)     # values nest with depth; the JSON reader stops at 255 levels
             ch = [plang.chain(d, v) for d in depths for v in ("plain", "list", "batch")]
             fam += [("chain", p) for p in ch]
             cov["chain_programs_validated_by_tlc"] = "chains of depth %s (plain / through lists / batch at the bottom): model-checked and their real traces validated" % (depths,)
